@@ -422,6 +422,14 @@ def real_options(spec):
                    'max_trunc_err': None})
         o['measure_at_algorithm_checkpoints'] = True
         o['connect_measurements'].append(('c18_helpers', 'm_sweeps'))
+        if spec.get('mixer', False):
+            # while a mixer is active psi has non-diagonal Schmidt values at the algorithm checkpoints (documented for
+            # measure_at_algorithm_checkpoints: psi might not be in canonical form): the default measurement m_entropy is
+            # not defined there; measure what is: index, bond dimensions, energy, <Sz>
+            M = 'tenpy.simulations.measurement'
+            o['use_default_measurements'] = False
+            o['connect_measurements'] = [(M, 'm_measurement_index', {}, 1), (M, 'm_bond_dimension'), (M, 'm_energy_MPO')] \
+                + o['connect_measurements']
     else:
         ap.update({'dt': spec.get('dt', 0.05), 'N_steps': spec.get('N_steps', 2)})
         if spec['alg'] == 'TEBDEngine':
@@ -490,6 +498,21 @@ def real_run(p):
 
     try:
         os.chdir(d)
+        if spec.get('min_sweeps_auto'):
+            # the stopping criterion decides: find the sweep k at which the uninterrupted run converges (min_sweeps=1), then
+            # require min_sweeps = k-1, i.e. the convergence test is consulted for the first time after sweep k, and a
+            # checkpoint exists with exactly min_sweeps sweeps done
+            o = copy.deepcopy(opts)
+            o['algorithm_params']['min_sweeps'] = 1
+            fresh_process()
+            probe = SimClass(o)
+            with probe:
+                probe.run()
+            k = int(probe.engine.sweeps)
+            del probe
+            for f in os.listdir(d):
+                os.unlink(os.path.join(d, f))
+            opts['algorithm_params']['min_sweeps'] = out['min_sweeps'] = max(1, k - 1)
         # ---- plain run, counting checkpoints
         o = copy.deepcopy(opts)
         o['connect_algorithm_checkpoint'] = [('c18_helpers', 'count_checkpoints', {}, -200)]
@@ -505,6 +528,7 @@ def real_run(p):
         out['plain']['psi_L'] = int(plain_psi.L)
         out['plain']['group'] = group_obs()
         out['plain']['saves'] = list(H.OBS['saves'])
+        out['plain']['sweep_trace'] = jsonable(H.OBS['sweeps'])
         out['n_checkpoints'] = n_ckpt
         on_disk = tenpy.tools.hdf5_io.load('data.' + fmt)
         out['plain_file_equal'] = real_summary(on_disk) == real_summary(plain)
@@ -559,6 +583,7 @@ def real_run(p):
                 rec['ckpt_measurements'] = max([len(v) for v in ck.get('measurements', {}).values()] + [0])
                 rec['ckpt_psi_grouped'] = psi_grouped_in(ck)
                 rec['ckpt_has'] = ['psi' in ck, 'resume_data' in ck]
+                rec['ckpt_sweeps'] = jsonable((ck.get('resume_data') or {}).get('sweeps'))
                 del ck
                 fresh_process()
                 try:
@@ -578,6 +603,7 @@ def real_run(p):
                 except Exception as e:
                     rec['error'] = 'resume failed: %s: %s | %s' % (type(e).__name__, e, traceback.format_exc()[-800:])
                 rec['group_resume'] = group_obs()
+                rec['sweep_trace'] = jsonable(H.OBS['sweeps'])
                 out['interrupted'].append(rec)
     finally:
         os.chdir(ORIG_CWD)
